@@ -21,10 +21,10 @@ def tla_set(xs):
 # Access family: C03 (pair-verify machine + session switch) and C01 (gating layer)
 # =====================================================================================================
 
-ACCESS_FINISH = ["genuine", "wrongkey", "stale", "reordered", "replayed", "unknown", "self", "reflect", "crossname", "badseal", "short", "badtlv"]
+ACCESS_FINISH = ["genuine", "wrongkey", "stale", "reordered", "replayed", "unknown", "self", "selfkey", "reflect", "crossname", "badseal", "short", "badtlv"]
 ACCESS_OPS = ["GetAcc", "GetChar", "PutVal", "PutSub", "Resource", "AddPair", "RemPair"]
 ACCESS_NOISE = ["psstart", "pswrong", "pszero"]
-ACCESS_GUARDS = ["rejected_start_keeps_waiting", "key_looked_up_per_finish", "session_installed_only_without_error", "signature_checked", "authenticate_checks_verified",
+ACCESS_GUARDS = ["accessory_is_not_a_controller", "rejected_start_keeps_waiting", "key_looked_up_per_finish", "session_installed_only_without_error", "signature_checked", "authenticate_checks_verified",
                  "authenticate_returns_after_refusal", "pairings_behind_auth", "resource_behind_auth"]
 ACCESS_RULES = {"VerifiedRule": "C03", "ErrorRule": "C03", "PlainStaysPlain": "C03",
                 "GateRule": "C01", "RefusalChangesNothing": "C01", "OnlyVerifiedGetEvents": "C01", "NoCarryOver": "C01"}
@@ -49,7 +49,7 @@ CHECK_DEADLOCK FALSE
 def access_slices(prop):
     if prop == 'C03':
         return dict(finish=ACCESS_FINISH, lens=["ok", "short", "long", "empty"], ops=["GetAcc"], noise=[])
-    return dict(finish=["genuine", "wrongkey", "self", "reflect", "crossname"], lens=["ok"], ops=ACCESS_OPS, noise=ACCESS_NOISE)
+    return dict(finish=["genuine", "wrongkey", "self", "selfkey", "reflect", "crossname"], lens=["ok"], ops=ACCESS_OPS, noise=ACCESS_NOISE)
 
 
 def access_generate(run):
@@ -524,7 +524,7 @@ def notify_family(run, replay=None):
 # SecureChannel (C05) and Framing (C06)
 # =====================================================================================================
 
-SC_GUARDS = ["tag_checked", "keys_depend_on_secret", "keys_differ_per_direction", "nonce_is_counter", "counter_incremented"]
+SC_GUARDS = ["error_is_final", "tag_checked", "keys_depend_on_secret", "keys_differ_per_direction", "nonce_is_counter", "counter_incremented"]
 
 
 def sc_cfg(nsent, maxwire, weak=(), tail=''):
